@@ -365,6 +365,50 @@ class Domain:
                 for c in esc:
                     self._escape(c, (self.fi.qname, norm(node), why or op), (self.fi.qname,), st, self.fi.loc(node), norm(node))
 
+    def _next_has_element(self, call) -> bool:
+        """next((k for k in X if k in Y)) under a guard that says X and Y intersect (not X.isdisjoint(Y), X & Y, any(k in Y for k in X)):
+        the generator has a first element"""
+        g = call.args[0]
+        if not (isinstance(g, ast.GeneratorExp) and len(g.generators) == 1 and len(g.generators[0].ifs) == 1 and isinstance(g.generators[0].target, ast.Name)):
+            return False
+        gen = g.generators[0]
+        c = gen.ifs[0]
+        if not (isinstance(c, ast.Compare) and len(c.ops) == 1 and isinstance(c.ops[0], ast.In) and isinstance(c.left, ast.Name) and c.left.id == gen.target.id):
+            return False
+
+        def base(x):
+            while isinstance(x, ast.Call) and isinstance(x.func, ast.Attribute) and x.func.attr == "keys" and not x.args:
+                x = x.func.value
+            if isinstance(x, ast.Call) and isinstance(x.func, ast.Name) and x.func.id in ("set", "frozenset", "list", "tuple") and len(x.args) == 1:
+                return base(x.args[0])
+            return norm(x)
+        want = {base(gen.iter), base(c.comparators[0])}
+        if len(want) != 2:
+            return False
+
+        def says_intersect(t):
+            """(True/False: holds when the test is true / false) or None"""
+            if isinstance(t, ast.UnaryOp) and isinstance(t.op, ast.Not):
+                r = says_intersect(t.operand)
+                return None if r is None else (not r)
+            if isinstance(t, ast.Call) and isinstance(t.func, ast.Attribute) and t.func.attr == "isdisjoint" and len(t.args) == 1 and {base(t.func.value), base(t.args[0])} == want:
+                return False
+            if isinstance(t, ast.BinOp) and isinstance(t.op, ast.BitAnd) and {base(t.left), base(t.right)} == want:
+                return True
+            if isinstance(t, ast.Call) and isinstance(t.func, ast.Name) and t.func.id == "any" and len(t.args) == 1 and isinstance(t.args[0], ast.GeneratorExp) \
+                    and len(t.args[0].generators) == 1 and not t.args[0].generators[0].ifs:
+                g2 = t.args[0]
+                e2 = g2.elt
+                if isinstance(e2, ast.Compare) and len(e2.ops) == 1 and isinstance(e2.ops[0], ast.In) and {base(g2.generators[0].iter), base(e2.comparators[0])} == want:
+                    return True
+            return None
+        from .condeval import enclosing_ifs
+        for (gd, side) in enclosing_ifs(self.fi, call):
+            r = says_intersect(gd.test)
+            if r is not None and r == side:
+                return True
+        return False
+
     def _escape(self, cls, origin, chain, st, loc, site=""):
         params = set(self.fi.params)
         keep = frozenset(f for f in st if f[0] in TRANSFER and all(q.split(".")[0] in params for q in F.paths_of(f)))
@@ -1339,6 +1383,24 @@ class Domain:
                             out.add(("ub", p, "\0" + f[2], f[3] - dd))
                         if f[0] == "lb" and f[1] == iv:
                             out.add(("lb", p, f[2] + dd))
+            if isinstance(a, ast.Call) and id(a) not in self.call_info:
+                # a table look-up written in the argument itself -- Rule(node_mappings.get(name)) -- says about the parameter what it would say
+                # about a local it was first assigned to
+                try:
+                    vf = self._call_value_facts(p, a, st)
+                except Exception:
+                    vf = st
+                for tf in (set(vf) - set(st)) if vf is not None else ():
+                    if tf[0] in TRANSFER and all(q == p for q in F.paths_of(tf)):
+                        out.add(tf)
+            if isinstance(a, ast.Subscript):
+                try:
+                    vf = self._subscript_value_facts(p, a, st)
+                except Exception:
+                    vf = st
+                for tf in (set(vf) - set(st)) if vf is not None else ():
+                    if tf[0] in TRANSFER and all(q == p for q in F.paths_of(tf)):
+                        out.add(tf)
             if isinstance(a, ast.Call) and id(a) in self.call_info:
                 # facts about the value an inner call returns travel with it into the parameter
                 common = None
@@ -1629,7 +1691,7 @@ class Domain:
                     self.oblige(e, "len(nullable)", ["TypeError"], st, "D-GUARD nonnull")
                 return st
             if name in ("next",) and len(args) == 1:
-                self.oblige(e, "next() without default", ["StopIteration"], st, None)
+                self.oblige(e, "next() without default", ["StopIteration"], st, "D-GUARD non-empty" if self._next_has_element(e) else None)
                 return st
             if name in ("min", "max") and len(args) == 1:
                 self.oblige(e, f"{name}() of possibly empty sequence", ["ValueError"], st, None)
